@@ -1,7 +1,9 @@
 package p
 
 import (
+	"encoding/binary"
 	"fmt"
+	"sort"
 	"time"
 
 	"example.com/m/q"
@@ -102,23 +104,81 @@ func Big(m map[string]int, mid uint64, interval int64) uint64 {
 	return bucket
 }
 
+// Hdr / SetHdr: little-endian field of a byte slice; the write is returned as the new slice.
+func Hdr(b []byte) uint32 { return binary.LittleEndian.Uint32(b[4:]) }
+
+func SetHdr(b []byte, v uint32) { binary.LittleEndian.PutUint32(b[4:], v) }
+
+// Touch calls a function that writes to its slice parameter, then writes an element itself.
+func Touch(b []byte, v uint32) byte {
+	SetHdr(b, v)
+	b[0] |= 1
+	return b[0]
+}
+
+// Lower: sort.Search with a function literal that can panic.
+func Lower(xs []uint32, x uint32) int {
+	return sort.Search(len(xs), func(i int) bool { return xs[i] >= x })
+}
+
+// Apply: a callback parameter.
+func Apply(f func(int) bool, x int) bool { return f(x + 1) }
+
+// Pair: a struct built field by field and returned by value (a tuple); UsePair reads it back.
+type Pair struct{ A, B int }
+
+func MkPair(a int) Pair {
+	p := Pair{A: a}
+	p.B = a * 2
+	return p
+}
+
+func UsePair(a int) int {
+	p := MkPair(a)
+	return p.A + p.B
+}
+
+// Halvings: a `for cond {}` loop (bounded by the gas parameter) nested in a range loop with an index.
+func Halvings(xs []int) int {
+	s := 0
+	for i, x := range xs {
+		for x > 0 {
+			x /= 2
+			s++
+		}
+		s += i
+	}
+	return s
+}
+
+// Short: the right operand of && can panic, so it is evaluated only when the left one holds.
+func Short(xs []int) bool { return len(xs) > 0 && xs[0] == 1 }
+
+// Scan: methods of an interface stay uninterpreted (oracles); the struct they return is opaque, read by accessors.
+type Item struct{ K uint64 }
+
+type Src interface {
+	Len() int
+	At(i int) Item
+}
+
+func Scan(s Src, i int) uint64 {
+	if i < s.Len() {
+		return s.At(i).K
+	}
+	return 0
+}
+
 // the following are outside the fragment
 
 func Float(x float64) int { return int(x * 2) }
 
-func Mutate(xs []int) int {
-	xs[0] = 1
-	return xs[0]
-}
+func Map(m map[string]int) int { return m["a"] }
 
-func While(n int) int {
-	for n > 10 {
-		n /= 2
-	}
+func Spawn(n int) int {
+	go Rec(n)
 	return n
 }
-
-func Short(xs []int) bool { return len(xs) > 0 && xs[0] == 1 }
 
 func Rec(n int) int {
 	if n <= 0 {
